@@ -238,6 +238,20 @@ Proof.
     subst rest. econstructor; [rewrite E1; apply Pick_split | exact R | eapply IH, El].
 Qed.
 
+(* the order it returns keeps every conjunct exactly once: nothing is dropped, nothing evaluated twice *)
+Theorem schedule_is_permutation : forall fuel B cs l, schedule scope fuel B cs = Some l -> Permutation cs l.
+Proof.
+  induction fuel as [|fuel IH]; intros B cs l H.
+  - destruct cs; [inversion H; constructor | discriminate].
+  - destruct cs as [|d cs']; [inversion H; constructor|].
+    cbn [schedule] in H. destruct (pick scope B [] (d :: cs')) as [[c rest]|] eqn:Ep; [|discriminate].
+    destruct (schedule scope fuel (binds B c ++ B) rest) as [l'|] eqn:El; [|discriminate].
+    inversion H; subst l. clear H.
+    destruct (pick_ready _ _ _ _ _ Ep) as [_ [l1 [l2 [E1 E2]]]]. simpl in E2.
+    rewrite E1. eapply perm_trans; [apply Permutation_sym, Permutation_middle|].
+    apply perm_skip. rewrite <- E2. eapply IH, El.
+Qed.
+
 Lemma Pick_perm_inv c l l' m : Pick c l l' -> Permutation l m -> exists m', Pick c m m' /\ Permutation l' m'.
 Proof.
   intros P Pm. pose proof (Pick_In _ _ _ P) as Hin.
